@@ -11,7 +11,8 @@ import ast
 
 from ..cfg import cfg_of, literals
 from ..dataflow import Defs, calls_in, stmt_of
-from ..index import AnalysisError, call_name, dotted, enclosing, head, norm, walk_body
+from ..index import N, AnalysisError, call_name, dotted, enclosing, head, norm, walk_body
+from ..pattern import facts_matching, find, has_fact, local_defined_as, pmatch
 from ..rules import COMPOUND, kw, node_calls, own_calls, prov_at
 from ..witness import W
 from . import c07
@@ -57,10 +58,16 @@ def r1_key(chk, repo):
     chk.need(len(rid) == 1, "C14.R1: DataKey._run_id not found")
     f = rid[0]
     cfg = cfg_of(f)
-    sx = [n for n in cfg.stmt_nodes() if isinstance(n.stmt, ast.Assign) and norm(n.stmt.targets[0]) == "suffix" and not (isinstance(n.stmt.value, ast.Constant))]
+    rets0 = [n for n in walk_body(f.node) if isinstance(n, ast.Return)]
+    SFX = None
+    for r_ in rets0:
+        b = pmatch("self.run_id + L_sfx", r_.value)
+        if b:
+            SFX = b["L_sfx"]
+    sx = [n for n in cfg.stmt_nodes() if isinstance(n.stmt, ast.Assign) and SFX and norm(n.stmt.targets[0]) == SFX and not (isinstance(n.stmt.value, ast.Constant))]
     chk.check(bool(sx) and all(("self.is_superrun", True) in cfg.guard_facts(n) and "deterministic_hash" in norm(n.stmt.value) and "self.subruns" in norm(n.stmt.value) for n in sx), "C14.R1", f, None, "superrun keys do not include a hash of the subrun specification: redefining the superrun would load stale data", site_text="DataKey._run_id: suffix = hash((subruns, combining)) for superruns", site={"function": f.qualname, "construct": "suffix"})
     rets = [n for n in walk_body(f.node) if isinstance(n, ast.Return)]
-    chk.check(bool(rets) and all(norm(r.value) == "self.run_id + suffix" for r in rets), "C14.R1", f, None, "the suffix is not part of the key", site_text="DataKey._run_id: run_id + suffix")
+    chk.check(bool(rets) and SFX is not None and all(norm(r.value) == f"self.run_id + {SFX}" for r in rets), "C14.R1", f, None, "the suffix is not part of the key", site_text="DataKey._run_id: run_id + suffix")
     rep = dk.methods["__repr__"]
     chk.check("self._run_id" in norm([n for n in walk_body(rep.node) if isinstance(n, ast.Return)][0].value), "C14.R1", rep, None, "directory names do not use the suffixed run id", site_text="DataKey.__repr__ uses _run_id")
     init = dk.methods["__init__"]
@@ -68,7 +75,9 @@ def r1_key(chk, repo):
     chk.check(any(isinstance(n.stmt, ast.Raise) and {("run_id.startswith('_')", True), ("subruns is None", True)} <= icfg.guard_facts(n) for n in icfg.stmt_nodes()), "C14.R1", init, None, "a superrun key can be built without its subrun specification", site_text="DataKey.__init__: superrun requires subruns")
     gk = repo.func("Context.get_data_key", CONTEXT)
     gcfg = cfg_of(gk)
-    sp = [n for n in gcfg.stmt_nodes() if isinstance(n.stmt, ast.Assign) and norm(n.stmt.targets[0]) == "sub_run_spec"]
+    cons0 = [c for c in calls_in(gk.node) if (call_name(c) or "").endswith("DataKey")]
+    SRS = norm(kw(cons0[0], "subruns")) if len(cons0) == 1 and isinstance(kw(cons0[0], "subruns"), ast.Name) else None
+    sp = [n for n in gcfg.stmt_nodes() if isinstance(n.stmt, ast.Assign) and SRS and norm(n.stmt.targets[0]) == SRS]
     ok = True
     for n in sp:
         facts = gcfg.guard_facts(n)
@@ -78,7 +87,7 @@ def r1_key(chk, repo):
             ok = ok and norm(n.stmt.value) == "None"
     chk.check(len(sp) == 2 and ok, "C14.R1", gk, None, "the stored subrun specification is not what goes into superrun keys", site_text="get_data_key: sub_run_spec from run metadata iff superrun")
     cons = [c for c in calls_in(gk.node) if (call_name(c) or "").endswith("DataKey")]
-    chk.check(len(cons) == 1 and kw(cons[0], "subruns") is not None and norm(kw(cons[0], "subruns")) == "sub_run_spec", "C14.R1", gk, None, "DataKey is built without the subrun specification", site_text="get_data_key: DataKey(subruns=sub_run_spec)", site={"function": gk.qualname, "construct": "subruns argument"})
+    chk.check(len(cons) == 1 and SRS is not None and len(sp) == 2, "C14.R1", gk, None, "DataKey is built without the subrun specification", site_text="get_data_key: DataKey(subruns=sub_run_spec)", site={"function": gk.qualname, "construct": "subruns argument"})
     # who may construct DataKey
     n_sites = 0
     for m in repo.modules.values():
@@ -97,28 +106,45 @@ def r2_persist(chk, repo):
     chk.check(len(d) == 1 and norm({k.arg: k.value for k in d[0].keywords}["subruns"]).endswith(".subruns"), "C14.R2", sv, None, "chunk subruns are not written to the chunk metadata", site_text="Saver.save: chunk_info[subruns] = chunk.subruns", site={"function": sv.qualname, "construct": "persist subruns"})
     rd = repo.func("StorageBackend._read_and_format_chunk", COMMON)
     cfg = cfg_of(rd)
-    chk.check(any(isinstance(n.stmt, ast.Raise) and {("chunk_info['run_id'].startswith('_')", True), ("subruns is None", True)} <= cfg.guard_facts(n) for n in cfg.stmt_nodes()), "C14.R2", rd, None, "a stored superrun chunk without subrun information is loaded", site_text="_read_and_format_chunk: raise for a superrun chunk without subruns")
+    cons0 = [c for c in calls_in(rd.node) if (call_name(c) or "").endswith("Chunk")]
+    SUB = norm(kw(cons0[0], "subruns")) if len(cons0) == 1 and isinstance(kw(cons0[0], "subruns"), ast.Name) else None
+    sdef = [n for n, b in find(rd.node, f"{SUB} = chunk_info.get('subruns', None)")] if SUB else []
+    chk.check(SUB is not None and any(isinstance(n.stmt, ast.Raise) and {("chunk_info['run_id'].startswith('_')", True), (f"{SUB} is None", True)} <= cfg.guard_facts(n) for n in cfg.stmt_nodes()), "C14.R2", rd, None, "a stored superrun chunk without subrun information is loaded", site_text="_read_and_format_chunk: raise for a superrun chunk without subruns")
     cons = [c for c in calls_in(rd.node) if (call_name(c) or "").endswith("Chunk")]
-    chk.check(len(cons) == 1 and kw(cons[0], "subruns") is not None and norm(kw(cons[0], "subruns")) == "subruns", "C14.R2", rd, None, "loaded chunk does not get its subruns back", site_text="_read_and_format_chunk: Chunk(subruns=subruns)", site={"function": rd.qualname, "construct": "restore subruns"})
+    chk.check(len(cons) == 1 and SUB is not None and bool(sdef), "C14.R2", rd, None, "loaded chunk does not get its subruns back", site_text="_read_and_format_chunk: Chunk(subruns=subruns)", site={"function": rd.qualname, "construct": "restore subruns"})
 
 
 def r4_order(chk, repo):
     chk.describe("C14.R4", "the subrun specification is ordered by run start when defined and keeps that order when written")
     f = repo.func("define_run", RUNSEL)
-    d = Defs(f.node)
-    si = d.single("sort_index")
-    chk.check(si is not None and norm(si) in ("stable_argsort(starts)", "strax.stable_argsort(starts)"), "C14.R4", f, None, "subruns are not ordered by a stable sort of their start times", site_text="define_run: sort_index = stable_argsort(starts)")
-    rebuilt = [n for n in walk_body(f.node) if isinstance(n, ast.Assign) and norm(n.targets[0]) == "data" and isinstance(n.value, ast.DictComp) and "sort_index" in norm(n.value)]
-    chk.check(bool(rebuilt) and all(norm(n.value.key) == "keys[i]" and norm(n.value.value) == "data[keys[i]]" for n in rebuilt), "C14.R4", f, None, "the specification handed to the frontend is not rebuilt in sorted order", site_text="define_run: data = {keys[i]: data[keys[i]] for i in sort_index}", site={"function": f.qualname, "construct": "sorted spec"})
-    ap = [c for c in calls_in(f.node) if norm(c.func) in ("starts.append", "keys.append")]
-    loops = {id(enclosing(c, (ast.For,))) for c in ap}
-    chk.check(len(ap) == 2 and len(loops) == 1 and any(norm(c.args[0]) == "run_doc_start" for c in ap) and any(norm(c.args[0]) == "_subrunid" for c in ap), "C14.R4", f, None, "keys and start times are not collected pairwise", site_text="define_run: keys and starts appended together")
     cfg = cfg_of(f)
-    dr = [n for n in cfg.stmt_nodes() if not isinstance(n.stmt, COMPOUND) and node_calls(n, lambda c, nm: nm.endswith(".define_run") and nm != "self.define_run")]
-    chk.check(bool(dr) and all(any(x in cfg.dominators("n")[n] for r in rebuilt for x in cfg.nodes_of(r)) for n in dr), "C14.R4", f, None, "the frontend receives the unsorted specification", site_text="define_run: frontend.define_run after sorting")
-    for n in dr:
-        c = [c for c in own_calls(n.stmt) if (call_name(c) or "").endswith(".define_run")][0]
-        chk.check(kw(c, "sub_run_spec") is not None and norm(kw(c, "sub_run_spec")) == "data", "C14.R4", f, n.stmt, "sorted specification is not what is stored", site_text="frontend.define_run(sub_run_spec=data)")
+    # role discovery: the dict comprehension that rebuilds the spec in the order of an index list
+    rebuilt = []
+    for n, b in find(f.node, "L_data = {L_keys[L_i]: L_data[L_keys[L_i]] for L_i in L_idx}"):
+        rebuilt.append((n, b))
+    chk.check(len(rebuilt) == 1, "C14.R4", f, None, "the specification handed to the frontend is not rebuilt in sorted order", site_text="define_run: spec = {keys[i]: spec[keys[i]] for i in sort_index}", site={"function": f.qualname, "construct": "sorted spec"})
+    if rebuilt:
+        rb, b = rebuilt[0]
+        IDX, KEYS, DATA = b["L_idx"], b["L_keys"], b["L_data"]
+        sdef = find(f.node, f"{IDX} = stable_argsort(L_starts)") + find(f.node, f"{IDX} = strax.stable_argsort(L_starts)")
+        chk.check(len(sdef) == 1, "C14.R4", f, None, "subruns are not ordered by a stable sort of their start times", site_text="define_run: index = stable_argsort(starts)", site={"function": f.qualname, "construct": "stable_argsort"})
+        STARTS = sdef[0][1]["L_starts"] if sdef else None
+        ap_k = [c for c in calls_in(f.node) if norm(c.func) == f"{KEYS}.append"]
+        ap_s = [c for c in calls_in(f.node) if STARTS and norm(c.func) == f"{STARTS}.append"]
+        ok = len(ap_k) == 1 and len(ap_s) == 1 and enclosing(ap_k[0], (ast.For,)) is enclosing(ap_s[0], (ast.For,)) and enclosing(ap_k[0], (ast.For,)) is not None
+        if ok:
+            lp = enclosing(ap_k[0], (ast.For,))
+            ok = norm(ap_k[0].args[0]) == norm(lp.target) and norm(lp.iter) == DATA
+            # the appended start is the run document's start
+            sv = ap_s[0].args[0]
+            sd = [n for n, bb in find(f.node, f"{norm(sv)} = L_doc['start'].replace(**___)")] if isinstance(sv, ast.Name) else []
+            ok = ok and bool(sd)
+        chk.check(ok, "C14.R4", f, None, "run ids and their start times are not collected pairwise from the run metadata", site_text="define_run: keys and starts appended together, start from the run document")
+        dr = [n for n in cfg.stmt_nodes() if not isinstance(n.stmt, COMPOUND) and node_calls(n, lambda c, nm: nm.endswith(".define_run") and nm != "self.define_run")]
+        chk.check(bool(dr) and all(any(x in cfg.dominators("n")[n] for x in cfg.nodes_of(rb)) for n in dr), "C14.R4", f, None, "the frontend receives the unsorted specification", site_text="define_run: frontend.define_run after sorting")
+        for n in dr:
+            c = [c for c in own_calls(n.stmt) if (call_name(c) or "").endswith(".define_run")][0]
+            chk.check(kw(c, "sub_run_spec") is not None and norm(kw(c, "sub_run_spec")) == DATA, "C14.R4", f, n.stmt, "sorted specification is not what is stored", site_text="frontend.define_run(sub_run_spec=<sorted spec>)")
     # writers must not sort keys
     n_w = 0
     for m in repo.modules.values():
@@ -142,28 +168,42 @@ def r5_planning(chk, repo):
     cfg = cfg_of(f)
     mk = [n for n in cfg.stmt_nodes() if not isinstance(n.stmt, COMPOUND) and node_calls(n, lambda c, nm: nm == "self.make")]
     chk.floor("C14.R5", "make(...) calls in the superrun branch", len(mk), 1)
+    SPEC = None
     for n in mk:
         c = [c for c in own_calls(n.stmt) if call_name(c) == "self.make"][0]
-        chk.check(norm(c.args[0]) == "list(sub_run_spec.keys())" and norm(c.args[1]) == "target_i", "C14.R5", f, n.stmt, "not all subruns of the specification are made for this target", site_text="check_cache: make(list(sub_run_spec.keys()), target_i, ...)")
+        b = pmatch("list(L_spec.keys())", c.args[0]) if c.args else None
+        SPEC = b["L_spec"] if b else None
+        spec_def = find(f.node, f"{SPEC} = self.run_metadata(run_id, projection='sub_run_spec')['sub_run_spec']") if SPEC else []
+        chk.check(SPEC is not None and bool(spec_def) and norm(c.args[1]) == "target_i", "C14.R5", f, n.stmt, "not all subruns of the stored specification are made for this target", site_text="check_cache: make(list(<spec>.keys()), target_i, ...)")
         chk.check(kw(c, "save") is not None and norm(kw(c, "save")) == "(target_i,)", "C14.R5", f, n.stmt, "subrun data is not saved before it is combined (the loaders below would not find it)", site_text="check_cache: make(..., save=(target_i,))", site={"function": f.qualname, "construct": "make save"})
         facts = cfg.guard_facts(n)
-        chk.check(("loader", False) in facts, "C14.R5", f, n.stmt, "subruns are remade although the superrun data can be loaded", site_text="check_cache: superrun branch only if not loader", nontrivial=False)
-        tr = [x for x in cfg.stmt_nodes() if isinstance(x.stmt, ast.Raise) and ("time_range is not None", True) in cfg.guard_facts(x) and x in cfg.dominators("n").get(n, set()) or False]
+        LD = [bb["L_ld"] for e, pol, g, bb in facts_matching(cfg, n, "L_ld", False) if any(pmatch("self._get_partial_loader_for(**___)", v) is not None or isinstance(v, ast.Call) and call_name(v) == "self._get_partial_loader_for" for v, s_, how in Defs(f.node).defs.get(bb["L_ld"], []) if v is not None)]
+        chk.check(bool(LD), "C14.R5", f, n.stmt, "subruns are remade although the superrun data can be loaded", site_text="check_cache: superrun branch only if no loader was found", nontrivial=False)
         rs = [x for x in cfg.stmt_nodes() if isinstance(x.stmt, ast.Raise) and ("time_range is not None", True) in cfg.guard_facts(x) and enclosing(x.stmt, (ast.If,)) is not None]
         chk.check(("time_range is not None", False) in facts and bool(rs), "C14.R5", f, n.stmt, "time-range requests on superruns are not refused", site_text="check_cache: raise for time_range on a superrun")
-    loops = [n for n in walk_body(f.node) if isinstance(n, ast.For) and norm(n.iter) == "sub_run_spec"]
-    chk.check(len(loops) == 1, "C14.R5", f, None, "loaders are not built by iterating the specification in its order", site_text="check_cache: for subrun in sub_run_spec", site={"function": f.qualname, "construct": "spec order"})
+    loops = [n for n in walk_body(f.node) if isinstance(n, ast.For) and SPEC and norm(n.iter) == SPEC]
+    chk.check(len(loops) == 1, "C14.R5", f, None, "loaders are not built by iterating the specification in its order", site_text="check_cache: for subrun in <spec>", site={"function": f.qualname, "construct": "spec order"})
+    LDRS = None
     for lp in loops:
-        ap = [c for c in calls_in(lp) if norm(c.func) == "ldrs.append"]
-        chk.check(len(ap) == 1 and norm(ap[0].args[0]) == "_loader" and enclosing(ap[0], (ast.If, ast.For)) is lp, "C14.R5", f, lp, "a subrun's loader is not appended (in order) for every subrun", site_text="check_cache: ldrs.append(_loader) for every subrun")
+        SR = norm(lp.target)
+        ap = [c for c in calls_in(lp) if isinstance(c.func, ast.Attribute) and c.func.attr == "append" and isinstance(c.func.value, ast.Name)]
+        ok = len(ap) == 1 and enclosing(ap[0], (ast.If, ast.For)) is lp and isinstance(ap[0].args[0], ast.Name)
+        if ok:
+            LDRS = ap[0].func.value.id
+            item = ap[0].args[0].id
+            idef = [v for n_ in ast.walk(lp) if isinstance(n_, ast.Assign) and norm(n_.targets[0]) == item for v in [n_.value]]
+            ok = bool(idef) and all(isinstance(v, ast.Call) and call_name(v) == "self._get_partial_loader_for" for v in idef)
+        chk.check(ok, "C14.R5", f, lp, "a subrun's loader is not appended (in order) for every subrun", site_text="check_cache: loaders.append(<partial loader>) for every subrun")
         ks = [c for c in calls_in(lp) if call_name(c) == "self.key_for"]
-        chk.check(bool(ks) and all(norm(c.args[0]) == "subrun" and norm(c.args[1]) == "target_i" for c in ks), "C14.R5", f, lp, "subrun loader is not keyed by (subrun, target)", site_text="check_cache: key_for(subrun, target_i)")
+        chk.check(bool(ks) and all(norm(c.args[0]) == SR and norm(c.args[1]) == "target_i" for c in ks), "C14.R5", f, lp, "subrun loader is not keyed by (subrun, target)", site_text="check_cache: key_for(subrun, target_i)")
         rs = [n for n in ast.walk(lp) if isinstance(n, ast.Raise)]
         chk.check(bool(rs), "C14.R5", f, lp, "a missing subrun loader is ignored", site_text="check_cache: raise if a subrun cannot be loaded")
-        tr = [n for n in ast.walk(lp) if isinstance(n, ast.Assign) and norm(n.targets[0]) == "_subrun_time_range"]
-        chk.check(any(norm(n.value) == "sub_run_spec[subrun]" for n in tr) and any(norm(n.value) == "None" for n in tr), "C14.R5", f, lp, "time ranges of the specification are not applied per subrun", site_text="check_cache: per-subrun time range from the specification")
-    cl = [g for g in repo.module(CONTEXT).functions.values() if g.qualname.endswith("check_cache.concat_loader")]
-    chk.check(len(cl) == 1 and any(isinstance(n, ast.For) and norm(n.iter) == "ldrs" and any(isinstance(x, ast.YieldFrom) for x in ast.walk(n)) for n in walk_body(cl[0].node)), "C14.R5", f, None, "subrun loaders are not chained in list order", site_text="concat_loader: for x in ldrs: yield from x(...)", site={"function": f.qualname, "construct": "chain order"})
+        trs = [k for c in calls_in(lp) if call_name(c) == "self._get_partial_loader_for" for k in c.keywords if k.arg == "time_range" and isinstance(k.value, ast.Name)]
+        TRN = trs[0].value.id if trs else None
+        tr = [n for n in ast.walk(lp) if isinstance(n, ast.Assign) and TRN and norm(n.targets[0]) == TRN]
+        chk.check(any(norm(n.value) == f"{SPEC}[{SR}]" for n in tr) and any(norm(n.value) == "None" for n in tr), "C14.R5", f, lp, "time ranges of the specification are not applied per subrun", site_text="check_cache: per-subrun time range from the specification")
+    cl = [g for g in repo.module(CONTEXT).functions.values() if g.parent_func is f and any(isinstance(x, ast.YieldFrom) for x in walk_body(g.node))]
+    chk.check(len(cl) == 1 and LDRS is not None and any(isinstance(n, ast.For) and norm(n.iter) == LDRS and any(isinstance(x, ast.YieldFrom) and norm(x.value).startswith(norm(n.target) + "(") for x in ast.walk(n)) for n in walk_body(cl[0].node)), "C14.R5", f, None, "subrun loaders are not chained in list order", site_text="concat_loader: for x in loaders: yield from x(...)", site={"function": f.qualname, "construct": "chain order"})
 
 
 def r6_annotations(chk, repo):
@@ -175,10 +215,10 @@ def r6_annotations(chk, repo):
         chk.check(any(call_name(c) == "_sorted_subruns_check" for c in calls_in(f.node)), "C14.R6", f, None, "overlap of run annotations is not checked", site_text=f"{q.split('#')[0]} setter: overlap check")
     sc = repo.func("_sorted_subruns_check", CHUNK)
     cfg = cfg_of(sc)
-    chk.check(any(isinstance(n.stmt, ast.Raise) and any("['end'] > " in t and "['start']" in t and p for t, p in cfg.guard_facts(n)) for n in cfg.stmt_nodes()), "C14.R6", sc, None, "overlapping run annotations are accepted", site_text="_sorted_subruns_check: raise if end[i] > start[i+1]")
+    chk.check(any(isinstance(n.stmt, ast.Raise) and has_fact(cfg, n, "L_r[L_i]['end'] > L_r[L_i + 1]['start']", True) for n in cfg.stmt_nodes()), "C14.R6", sc, None, "overlapping run annotations are accepted", site_text="_sorted_subruns_check: raise if end[i] > start[i+1]")
     cc = repo.func("continuity_check", CHUNK)
     ccfg = cfg_of(cc)
-    rst = [n for n in ccfg.stmt_nodes() if isinstance(n.stmt, ast.Assign) and norm(n.stmt.targets[0]) == "last_end" and norm(n.stmt.value) == "None" and any("first_subrun['run_id'] != last_subrun['run_id']" in t and p for t, p in ccfg.guard_facts(n))]
+    rst = [n for n in ccfg.stmt_nodes() if isinstance(n.stmt, ast.Assign) and isinstance(n.stmt.targets[0], ast.Name) and norm(n.stmt.value) == "None" and has_fact(ccfg, n, "L_c.first_subrun['run_id'] != L_ls['run_id']", True)]
     chk.check(bool(rst), "C14.R6", cc, None, "continuity is demanded across the border between two subruns (whose times are unrelated)", site_text="continuity_check: reset at a new subrun")
     st = repo.func("Plugin.superrun_transformation", PLUGIN)
     scfg = cfg_of(st)
